@@ -75,6 +75,16 @@ def check(cond: bool, kind: str, detail: str | Callable[[], str] = "", info: dic
         raise Violation(kind, detail, info)
 
 
+def _as_text(x: Any) -> str:
+    if isinstance(x, str):
+        return x
+    if isinstance(x, dict):
+        return "; ".join(f"{k}: {_as_text(v)}" for k, v in x.items())
+    if isinstance(x, (list, tuple)):
+        return "; ".join(_as_text(v) for v in x)
+    return "" if x is None else str(x)
+
+
 def digest(case: Any) -> str:
     return hashlib.sha1(
         json.dumps(case, sort_keys=True, separators=(",", ":"), default=str).encode()
@@ -517,7 +527,7 @@ def run_property(prop: str, tier: str, seed: int, only_legs: list[str] | None = 
             "evaluations": ev,
             "distinct_nontrivial": len(nt),
             "nontrivial_fraction": round(frac, 4),
-            "rule": leg.rule,
+            "rule": _as_text(leg.rule),
             "classes": dict(sorted(cls.items())),
             "shards": len(rs),
             "wall_s": round(max([r["wall_s"] for r in rs], default=0.0), 2),
@@ -537,8 +547,8 @@ def run_property(prop: str, tier: str, seed: int, only_legs: list[str] | None = 
         "coverage": {
             "evaluations": total_eval + replayed,
             "distinct_nontrivial": len(all_nt),
-            "rule": getattr(mod, "RULE", "")
-            or "; ".join(f"{l.name}: {l.rule}" for l in legs),
+            "rule": _as_text(getattr(mod, "RULE", ""))
+            or "; ".join(f"{l.name}: {_as_text(l.rule)}" for l in legs),
             "samples": samples[:12],
             "legs": cov_legs,
             "ambiguous": ambiguous,
